@@ -89,6 +89,11 @@ type Config struct {
 	Trace bool `json:"trace,omitempty"`
 	// Labels gives canonical ranks for pointer map keys (see MapKeys).
 	Labels map[unsafe.Pointer]int `json:"-"`
+	// StopAtRootReturn ends the run as soon as the workload function has
+	// returned, the way a process ends when main returns; whatever is still
+	// alive is reported as leaked. Without it the remaining goroutines run
+	// on until nothing is runnable.
+	StopAtRootReturn bool `json:"stop_at_root_return,omitempty"`
 }
 
 type CrashInfo struct {
@@ -850,6 +855,10 @@ func (s *Sim) schedule() string {
 				}
 				sleepers++
 			}
+		}
+
+		if s.rootDone && s.cfg.StopAtRootReturn {
+			return "completed"
 		}
 
 		if len(run) == 0 {
